@@ -77,12 +77,12 @@ def compile_one(src, flags):
 
 
 def build_binary(name, harness_srcs, repo_srcs=CORE_SRCS, extra_flags=("-O1",), libs=("-lspdlog", "-lfmt", "-lpthread"),
-                 opt_tag=""):
+                 opt_tag="", jobs=16):
     """Compile repo sources (from REPO's working tree) + harness sources and link. Returns (path, error)."""
     os.makedirs(BIN, exist_ok=True)
     flags = BASE_FLAGS + list(extra_flags)
     srcs = [os.path.join(REPO, s) for s in repo_srcs] + [os.path.join(VERIF, "harness", s) for s in harness_srcs]
-    with ThreadPoolExecutor(max_workers=16) as ex:
+    with ThreadPoolExecutor(max_workers=jobs) as ex:
         res = list(ex.map(lambda s: compile_one(s, flags), srcs))
     errs = [e for (_, e) in res if e]
     if errs:
@@ -99,8 +99,13 @@ def build_binary(name, harness_srcs, repo_srcs=CORE_SRCS, extra_flags=("-O1",), 
     return out, None
 
 
-def build_l2(san=False):
+def build_l2(san=False, tsan=False):
+    """san: AddressSanitizer + UBSan; tsan: ThreadSanitizer (every repo object and the harness instrumented; never combined
+    with ASan).  The flags are part of every object's cache key and of the binary's name, so the variants never share objects."""
     extra = ["-O1", "-D_GLIBCXX_ASSERTIONS"]
+    if tsan:
+        extra += ["-fsanitize=thread", "-fno-omit-frame-pointer"]
+        return build_binary("l2", ["l2.cpp"], extra_flags=tuple(extra), opt_tag="-tsan", jobs=8)
     if san:
         extra += ["-fsanitize=address,undefined", "-fno-sanitize-recover=undefined", "-fno-omit-frame-pointer"]
     return build_binary("l2", ["l2.cpp"], extra_flags=tuple(extra), opt_tag="-san" if san else "")
